@@ -1,18 +1,12 @@
 (* C37 — The SQL proxy forwards only queries whose topics are all allowed.
-   Only statements closed by [exact]; proofs live in proofs/SqlProxyProofs.v.
-   [string_laws] are the interplay laws of Go's strings.Fields / TrimSpace /
-   TrimSuffix / Join, stated on the modelled functions (the fourth law used,
-   Fields commutes with ASCII lower-casing, is proved: fields_lower); they
-   are premises (not axioms), evaluated on every generated text by the
-   correspondence check (model side) and by the harness (real Go functions). *)
-From KS Require Import lib.Base model.SqlParse model.SqlProxy proofs.SqlParseCaseProofs proofs.SqlProxyProofs.
+   Only statements closed by [exact]; proofs live in proofs/SqlProxyProofs.v and
+   proofs/SqlProxyStringProofs.v (the interplay laws of Go's strings.Fields /
+   TrimSpace / TrimSuffix / Join and ASCII lower-casing, proved on the byte-level
+   models). The only premise left is the one fact used about acl.go (C23):
+   matchPatterns with no patterns matches nothing. *)
+From KS Require Import lib.Base model.SqlParse model.SqlProxy proofs.SqlParseCaseProofs
+  proofs.SqlProxyProofs proofs.SqlProxyStringProofs.
 Open Scope Z_scope.
-
-Definition string_laws : Prop :=
-  (forall s, fields (trim_semi (trim_space s)) = drop_semi (fields s)) /\
-  (forall s, fields (join32 (fields s)) = fields s) /\
-  (forall s, session s = true ->
-     match tokens s with [] => True | f :: _ => f = kw_set \/ f = kw_reset end).
 
 (* Every text the proxy forwards — after any sequence of query messages on the
    connection, with any ACL, cache size, TTL-expiry pattern, any pattern matcher
@@ -21,23 +15,34 @@ Definition string_laws : Prop :=
    only if the ACL allows that), the topics being those of exactly the forwarded
    text. Holds for cache hits too. *)
 Theorem C37_forward_sound : forall mp parse_ok,
-  (forall t, mp [] t = false) -> string_laws ->
+  (forall t, mp [] t = false) ->
   forall a ttl maxn ms x,
   In (Forwarded x) (run mp parse_ok a (new_cache ttl maxn) ms) -> upstream_ok mp parse_ok a x.
 Proof.
-  intros mp parse_ok Hnil [L1 [L3 L4]]. exact (forward_sound mp parse_ok Hnil L1 fields_lower L3 L4).
+  intros mp parse_ok Hnil.
+  exact (forward_sound mp parse_ok Hnil fields_strip fields_lower fields_join session_tokens).
 Qed.
 Print Assumptions C37_forward_sound.
 
 (* equal cache keys => the parser sees equal token lists => equal topics *)
-Theorem C37_cache_sound : string_laws ->
-  forall m1 m2, cache_key m1 = cache_key m2 ->
+Theorem C37_cache_sound : forall m1 m2, cache_key m1 = cache_key m2 ->
   tokens m1 = tokens m2 /\ token_topics (tokens m1) = token_topics (tokens m2).
 Proof.
-  intros [L1 [L3 _]] m1 m2 H.
-  pose proof (cache_key_tokens L1 fields_lower L3 m1 m2 H) as E. split; [exact E|now rewrite E].
+  intros m1 m2 H.
+  pose proof (cache_key_tokens fields_strip fields_lower fields_join m1 m2 H) as E. split; [exact E|now rewrite E].
 Qed.
 Print Assumptions C37_cache_sound.
+
+(* the string laws themselves, for every byte string *)
+Theorem C37_string_laws :
+  (forall s, fields (trim_semi (trim_space s)) = drop_semi (fields s)) /\
+  (forall s, fields (ascii_lower s) = map ascii_lower (fields s)) /\
+  (forall s, fields (join32 (fields s)) = fields s) /\
+  (forall s, fields (trim_space s) = fields s) /\
+  (forall s, session s = true ->
+     match tokens s with [] => True | f :: _ => f = kw_set \/ f = kw_reset end).
+Proof. exact (conj fields_strip (conj fields_lower (conj fields_join (conj fields_trim_space session_tokens)))). Qed.
+Print Assumptions C37_string_laws.
 
 (* a query is never authorized on a different or truncated text: what is forwarded
    is the client's text, and on a cache miss authorizeQuery ran on that same text *)
